@@ -283,3 +283,21 @@ Lemma holds_and2 q p r : holds (PAnd [q; p]) r = holds q r && holds p r.
 Proof.
   unfold holds. simpl. destruct (evalp q r) as [[|]|], (evalp p r) as [[|]|]; reflexivity.
 Qed.
+
+Lemma eval_needs e (r : row) t : t ∈ cols_e e → r !! t = None → eval e r = None.
+Proof.
+  induction e; simpl; intros Ht Hr.
+  - assert (t = t0) by set_solver. subst. auto.
+  - set_solver.
+  - rewrite IHe; auto.
+  - apply elem_of_union in Ht as [Ht|Ht].
+    + rewrite IHe1; auto.
+    + rewrite IHe2; auto. destruct (eval e1 r); auto.
+  - apply elem_of_union in Ht as [Ht|Ht].
+    + rewrite IHe1; auto.
+    + rewrite IHe2; auto. destruct (eval e1 r); auto.
+  - apply elem_of_union in Ht as [Ht|Ht].
+    + rewrite IHe1; auto.
+    + rewrite IHe2; auto. destruct (eval e1 r); auto.
+  - auto.
+Qed.
